@@ -2,7 +2,9 @@ from .common import COMMON_TB
 
 CFG = dict(
         coq="Properties/C19.v",
-        areas=["options", "lzmaenc"],
+        areas=["options", "lzmaenc", "c02"],
+    # c02 belongs to C02; here: a container writer that reported success wrote something its own reader returns
+    oracle_filter={"c02": r"own reader does not return|writer panicked|writer returned error|valid file rejected|valid file decoded to different"},
         profiles=["release", "checked"],
         level="proof",
         theorems_expected=["C19_in", "C19_out", "C19_ctx_index_bounds", "C19_props_roundtrip", "C19_encoder_new_ok"],
